@@ -125,6 +125,9 @@ def cases(tier, seed):
             off = rnd.choice([0, 0, 0, 1, 2, n]) if n else 0
             ops.append("vi.decbuf %s %s %d %s" % (ty, s, min(off, n), rnd.choice(["zero", "full"])))
             ops.append("vi.decsrc %s %s" % (ty, s))
+            if n >= 2 and rnd.random() < 0.4:
+                # several values one behind the other in one buffer: each decode starts at the read mark the one before left
+                ops.append("vi.decseq %s %s %d %s" % (ty, s, rnd.choice([0, 0, 1]), rnd.choice(["zero", "zero", "full"])))
             if n and rnd.random() < 0.5:
                 # the same octets scattered over a chunk list, some chunks empty
                 cuts = sorted(rnd.randint(0, n) for _ in range(rnd.choice([1, 2, 3, 4])))
